@@ -522,7 +522,7 @@ PROPS = {
     "C10": dict(fams=["dtor10"], monitor=["C10"], level="model_checking"),
     "C11": dict(fams=["panic", "cpanic"], monitor=["C11"], level="model_checking"),
     "C12": dict(fams=["consume"], monitor=["C12"], level="model_checking"),
-    "C13": dict(fams=["elide", "stale"], monitor=["C13x", "C13"], known_prop="C13", level="model_checking"),
+    "C13": dict(fams=["elide", "stale", "consume"], monitor=["C13x", "C13"], known_prop="C13", level="model_checking"),
     "C14": dict(fams=["core"], monitor=["C14"], level="model_checking"),
     "C15": dict(fams=["core"], monitor=["C15"], scale=True, level="model_checking"),
     "C16": dict(fams=["dtor16"], monitor=["C16"], child=True, level="model_checking"),
